@@ -851,6 +851,16 @@ caf_read_strings (SF_PRIVATE * psf, sf_count_t chunk_size)
 	char *key, *value ;
 	uint32_t count, hash ;
 
+	/*
+	**	The strings are read through the header cache, which holds at most 100k
+	**	(psf_bump_header_allocation) and whose 'b' conversion takes an int count.
+	**	On a pipe the caller's test against psf->filelength does not bound chunk_size.
+	*/
+	if (chunk_size > 100 * 1024)
+	{	psf_log_printf (psf, " *** 'info' chunk of %D bytes is too big to be read.\n", chunk_size) ;
+		return 0 ;
+		} ;
+
 	if ((buf = malloc (chunk_size + 1)) == NULL)
 		return (psf->error = SFE_MALLOC_FAILED) ;
 
